@@ -435,7 +435,7 @@ def _f32(x: float) -> float:
 WIDE_DBL = [float(2 ** 52 + 1), float(2 ** 53 - 1), float(2 ** 53 + 2), -float(2 ** 52 + 1), -float(2 ** 53 - 1),
             0.49999999999999994, -0.49999999999999994, 0.5000000000000001, 4503599627370495.5, -4503599627370495.5,
             2251799813685247.5, 1e300, -1e300, 5e-324, 1.7976931348623157e308, 8388607.5, 1e15 + 0.5, 123456789.75]
-WIDE_FLT = [16777213.0, -16777213.0, 8388607.5, -8388607.5, 16777216.0, _f32(3.4028235e38), _f32(1e-30), 33554430.0]     # (elementpath flushes |xs:float| < 1e-37 to zero: a lexical-space matter, C10)
+WIDE_FLT = [_f32(3e38), -_f32(3e38), _f32(1e-30) * 1e-8, 16777213.0, -16777213.0, 8388607.5, -8388607.5, 16777216.0, _f32(3.4028235e38), _f32(1e-30), 33554430.0]     # (elementpath flushes |xs:float| < 1e-37 to zero: a lexical-space matter, C10)
 WIDE_INT = [2 ** 53 + 1, -(2 ** 53 + 1), 2 ** 63 - 1, -2 ** 63, 2 ** 64 - 1, 10 ** 30 + 7, -(10 ** 30 + 7), 2 ** 31, -2 ** 31 - 1]
 WIDE_DEC = ['12345678901234567.5', '-12345678901234567.5', '0.000000000000000001', '99999999999999999.99', '-0.49999999999999994',
             '9007199254740993.25', '0.5000000000000000001']
@@ -443,7 +443,7 @@ DERIVED = [('byte', -128), ('byte', 127), ('short', -32768), ('int', -2147483648
            ('long', 9223372036854775807), ('negativeInteger', -5), ('nonPositiveInteger', -3), ('nonPositiveInteger', 0),
            ('nonNegativeInteger', 0), ('positiveInteger', 7), ('unsignedByte', 255), ('unsignedShort', 65535),
            ('unsignedInt', 4294967295), ('unsignedLong', 18446744073709551615), ('integer', -12)]
-PARTNERS = [('int', 1), ('int', -2), ('int', 3), ('dec', Fraction(1, 2)), ('dec', Fraction(-5, 2)), ('dbl', Fraction(5, 2)),
+PARTNERS = [('flt', Fraction(10)), ('flt', Fraction(1, 1024)), ('dbl', Fraction(2) ** 600), ('dbl', Fraction(2) ** -600), ('int', 1), ('int', -2), ('int', 3), ('dec', Fraction(1, 2)), ('dec', Fraction(-5, 2)), ('dbl', Fraction(5, 2)),
             ('dbl', Fraction(-3)), ('dbl', Fraction(1)), ('flt', Fraction(3, 2)), ('flt', Fraction(-2))]
 
 
@@ -482,15 +482,18 @@ def wide_expected(exp):
     if exp['t'] == 'dec' and (exp['ap'] or _digits(q) > 27):
         return None
     if exp['t'] in ('flt', 'dbl'):
-        try:
-            x = float(q)
-        except OverflowError:
+        # IEEE 754 range of the result type (the exact-rational model of Numeric.tla has no range): a result beyond the
+        # largest finite value rounds to INF of its sign, one below half of the smallest subnormal rounds to zero of its
+        # sign; the band around each threshold where the rounding mode decides is left out.
+        big, tiny = (Fraction(2) ** 128, Fraction(2) ** -150) if exp['t'] == 'flt' else (Fraction(2) ** 1024, Fraction(2) ** -1075)
+        if abs(q) >= big:
+            return _special(exp['t'], 'ninf' if q < 0 else 'pinf')
+        if q != 0 and abs(q) < tiny / 2:
+            return dict(exp, q=(0, 1), nz=q < 0, ap=False)
+        if q != 0 and (abs(q) > big * Fraction(99, 100) or abs(q) < tiny * 4):
             return None
-        if (x == 0.0) != (q == 0) or math.isinf(x):
-            return None
+        x = float(q)
         if exp['t'] == 'flt':
-            if q != 0 and (abs(q) > Fraction(3.4028234e38) or abs(q) < Fraction(1.2e-38)):
-                return None
             exp = dict(exp, ap=True)       # rounding to single precision: compared to the nearest float / 1e-6
         elif Fraction(x) != q:
             exp = dict(exp, ap=False)      # correctly rounded by the projection float(Fraction)
@@ -506,9 +509,15 @@ def wide_cases():
         ta = wide_text(a, sp)
         for f in ('neg', 'abs', 'floor', 'ceiling', 'round'):
             ops.append((('-' + ta) if f == 'neg' else f'{f}({ta})', pym_un(f, a), ['2.0', '3.1'], dict(action='WideUn', op=f, ta=a['t'], spelling=sp or 'plain')))
+            if f != 'neg':     # the same function reached through the dynamic call forms (result checked against the declared type there)
+                for form, vs in ((f'{f}#1({ta})', ['3.0', '3.1']), (f'{ta} => {f}()', ['3.1']), (f'for-each({ta}, {f}#1)', ['3.0']),
+                                 (f'{f}(?)({ta})', ['3.1']), (f'function-lookup(xs:QName("fn:{f}"), 1)({ta})', ['3.0'])):
+                    ops.append((form, pym_un(f, a), vs, dict(action='WideUn', op=f, ta=a['t'], spelling=sp or 'plain', form=form.split('(')[0][:12])))
         for pr in (-1, 0, 1, 2):
             ops.append((f'round({ta}, {pr})', pym_round_p(a, pr), ['3.0', '3.1'], dict(action='WideRoundTo', op='RoundTo', ta=a['t'], spelling=sp or 'plain')))
             ops.append((f'round-half-to-even({ta}, {pr})', pym_half_even(a, pr), ['2.0', '3.1'], dict(action='WideRoundHE', op='RoundHE', ta=a['t'], spelling=sp or 'plain')))
+            ops.append((f'round#2({ta}, {pr})', pym_round_p(a, pr), ['3.1'], dict(action='WideRoundTo', op='RoundTo', ta=a['t'], spelling=sp or 'plain', form='ref')))
+            ops.append((f'round-half-to-even#2({ta}, {pr})', pym_half_even(a, pr), ['3.0'], dict(action='WideRoundHE', op='RoundHE', ta=a['t'], spelling=sp or 'plain', form='ref')))
         for tb, qb in PARTNERS:
             b = _wv(tb, qb)
             # a non-dyadic value promoted to a floating type is rounded by the cast: outside the model (ExactlyPromotable)
@@ -518,7 +527,7 @@ def wide_cases():
                 continue       # the promotion of the wide integer/decimal itself rounds
             if _promote(a['t'], tb) == 'flt' and Fraction(_f32(float(frac(a)))) != frac(a):
                 continue
-            tbx = render(b, 'lit')
+            tbx = render(b, 'lit') if max(abs(b['q'][0]), b['q'][1]) < 2 ** 40 else wide_text(b)
             for op, sym in OPS.items():
                 ops.append((f'{ta} {sym} {tbx}', PYM_BIN[op](a, b), ['2.0', '3.1'], dict(action='WideBin', op=op, ta=a['t'], tb=tb, spelling=sp or 'plain', side='left')))
                 ops.append((f'{tbx} {sym} {ta}', PYM_BIN[op](b, a), ['2.0', '3.1'], dict(action='WideBin', op=op, ta=tb, tb=a['t'], spelling=sp or 'plain', side='right')))
